@@ -77,7 +77,7 @@ func (cliStream) Generate(rng *rand.Rand, tier string, emit func(Case)) {
 		var lm map[string]any
 		_ = json.Unmarshal(lj, &lm)
 		for _, c := range cmds {
-			emit(Case{"op": "list", "cmd": c, "layout": lm, "schema": schemaChoice})
+			emit(Case{"op": "list", "cmd": c, "layout": lm, "schema": schemaChoice, "dirstyle": []string{"", "trailing", "double", "dot"}[(i+len(c))%4]})
 		}
 		emit(Case{"op": "inject", "layout": lm, "patterns": hxList([][]string{{"*/*"}, {"v1.com/*"}, {"*/*=d0", "v2.com/c1=d1"}, {"nomatch*"}, {"*"}, {"*/*", "*/*=d0"}, {"v1.com/c1=d0", "v1.com/*", "*/c1=d0"},
 			{"*/*=d1", "*/*=d0", "*/*=d1"}, {"v?.com/c[12]=d*", "*/c1=*"}}[rng.Intn(9)]),
@@ -175,7 +175,19 @@ func (cliStream) Execute(c Case) {
 		}
 		sort.Strings(keys)
 		lib["errorkeys"] = hxList(keys)
-		dirArg := strings.Join(dirs, ",")
+		// the directories as a user may spell them: plain, with a trailing slash, with a doubled slash, through "."
+		spelled := append([]string{}, dirs...)
+		for i, d := range spelled {
+			switch c["dirstyle"] {
+			case "trailing":
+				spelled[i] = d + "/"
+			case "double":
+				spelled[i] = strings.Replace(d, "/", "//", 2)
+			case "dot":
+				spelled[i] = filepath.Dir(d) + "/./" + filepath.Base(d)
+			}
+		}
+		dirArg := strings.Join(spelled, ",")
 		if c["op"] == "list" {
 			lib["devices"] = hxList(cache.ListDevices())
 			var vs, specs []any
